@@ -31,6 +31,7 @@ import (
 type prov struct {
 	J int   `json:"provider"`  // node that has provides = {"l": [names[K]]}
 	K int   `json:"provided"`  // the provided target
+	M []int `json:"also_provided,omitempty"` // further provided targets: provides = {"l": [names[K], names[M]...]}
 	R []int `json:"requirers"` // nodes with requires = ["l"]
 }
 
@@ -52,6 +53,7 @@ func (w witness) clone() witness {
 	if w.Prov != nil {
 		p := *w.Prov
 		p.R = append([]int{}, w.Prov.R...)
+		p.M = append([]int(nil), w.Prov.M...)
 		c.Prov = &p
 	}
 	return c
@@ -100,18 +102,20 @@ func newModel(names []string, edges [][2]int, p *prov) *model {
 	}
 	seen := map[[2]int]bool{}
 	for _, e := range edges {
-		to := e[1]
+		tos := []int{e[1]}
 		if p != nil && e[1] == p.J {
 			for _, r := range p.R {
 				if r == e[0] {
-					to = p.K
+					tos = append([]int{p.K}, p.M...)
 				}
 			}
 		}
-		if !seen[[2]int{e[0], to}] {
-			seen[[2]int{e[0], to}] = true
-			m.adj[e[0]] = append(m.adj[e[0]], to)
-			m.radj[to] = append(m.radj[to], e[0])
+		for _, to := range tos {
+			if !seen[[2]int{e[0], to}] {
+				seen[[2]int{e[0], to}] = true
+				m.adj[e[0]] = append(m.adj[e[0]], to)
+				m.radj[to] = append(m.radj[to], e[0])
+			}
 		}
 	}
 	return m
@@ -259,7 +263,11 @@ func buildReal(state *core.BuildState, w *witness) *realGraph {
 		ts[e[0]].AddDependency(rg.labels[e[1]])
 	}
 	if w.Prov != nil {
-		ts[w.Prov.J].AddProvide("l", []core.BuildLabel{rg.labels[w.Prov.K]})
+		provided := []core.BuildLabel{rg.labels[w.Prov.K]}
+		for _, k := range w.Prov.M {
+			provided = append(provided, rg.labels[k])
+		}
+		ts[w.Prov.J].AddProvide("l", provided)
 		for _, r := range w.Prov.R {
 			ts[r].AddRequire("l")
 		}
@@ -489,6 +497,13 @@ func removeNode(w witness, v int) (witness, bool) {
 	if w.Prov != nil && (w.Prov.J == v || w.Prov.K == v) {
 		return w, false
 	}
+	if w.Prov != nil {
+		for _, k := range w.Prov.M {
+			if k == v {
+				return w, false
+			}
+		}
+	}
 	// do not orphan hidden sub-targets
 	for _, s := range w.Names {
 		if pn, h := parentName(s); h && pn == w.Names[v] {
@@ -512,6 +527,9 @@ func removeNode(w witness, v int) (witness, bool) {
 	c.Root, c.To = re(w.Root), re(w.To)
 	if c.Prov != nil {
 		c.Prov.J, c.Prov.K = re(c.Prov.J), re(c.Prov.K)
+		for i, k := range c.Prov.M {
+			c.Prov.M[i] = re(k)
+		}
 		var rr []int
 		for _, r := range c.Prov.R {
 			if r != v {
@@ -565,6 +583,14 @@ func shrink(state *core.BuildState, w witness, symptom string) witness {
 			if still(c) {
 				w, changed = c, true
 				continue
+			}
+			if len(w.Prov.M) > 0 {
+				c := w.clone()
+				c.Prov.M = nil
+				if still(c) {
+					w, changed = c, true
+					continue
+				}
 			}
 			for i := range w.Prov.R {
 				if len(w.Prov.R) == 1 {
@@ -982,6 +1008,13 @@ func relevantAll(m *model, base *witness, starts []int, forward bool) bool {
 			if base.Prov != nil && base.Prov.K == u {
 				push(base.Prov.J)
 			}
+			if base.Prov != nil {
+				for _, k := range base.Prov.M {
+					if k == u {
+						push(base.Prov.J)
+					}
+				}
+			}
 		}
 	}
 	for _, x := range in {
@@ -1103,6 +1136,18 @@ func provVariants(n int, es [][2]int, full bool) []*prov {
 				}
 				if !bad {
 					out = append(out, &prov{J: j, K: k, R: rs})
+					// a list-valued entry: provides = {"l": [k, k2]}
+					for k2 := k + 1; k2 < n; k2++ {
+						ok := k2 != j
+						for _, p := range rs {
+							if p == k2 {
+								ok = false
+							}
+						}
+						if ok {
+							out = append(out, &prov{J: j, K: k, M: []int{k2}, R: rs})
+						}
+					}
 				}
 			}
 		}
@@ -1155,12 +1200,12 @@ func main() {
 	maxN := 5
 	type space struct {
 		n        int
-		prov     string // "none" | "all-dependents" | "full"
+		prov     string // "none" | "all-dependents" | "full" | "list-valued"
 		somepath bool
 	}
 	var spaces []space
 	if r.Quick() {
-		spaces = []space{{1, "full", true}, {2, "full", true}, {3, "full", true}, {4, "none", true}, {5, "none", true}}
+		spaces = []space{{1, "full", true}, {2, "full", true}, {3, "full", true}, {4, "none", true}, {4, "list-valued", true}, {5, "none", true}}
 	} else {
 		spaces = []space{{1, "full", true}, {2, "full", true}, {3, "full", true}, {4, "full", true}, {5, "none", true}, {5, "all-dependents", false}}
 	}
@@ -1205,6 +1250,12 @@ func main() {
 								pvs = []*prov{nil}
 							case "all-dependents":
 								pvs = provVariants(sp.n, es, false)
+							case "list-valued": // only the variants whose provides entry lists two targets
+								for _, pv := range provVariants(sp.n, es, true) {
+									if pv != nil && len(pv.M) > 0 {
+										pvs = append(pvs, pv)
+									}
+								}
 							default:
 								pvs = provVariants(sp.n, es, true)
 							}
